@@ -77,13 +77,43 @@ impl Future for WaitGroupFuture {
         match self.0.upgrade() {
             None => Poll::Ready(()),
             Some(wg) => {
+                #[cfg(fastcgi_server_verif)]
+                verif_wg_hook(1);
                 wg.waker.register(cx.waker());
+                #[cfg(fastcgi_server_verif)]
+                verif_wg_hook(2);
                 Poll::Pending
             },
         }
     }
 }
 
+
+/// Scheduling points for the verification harness (`--cfg fastcgi_server_verif` only): a callback
+/// invoked inside `WaitGroupFuture::poll` after `Weak::upgrade` (1) and after the waker
+/// registration (2), so that a token drop can be forced into each window deterministically.
+#[cfg(fastcgi_server_verif)]
+type VerifWgHook = Box<dyn FnMut(u8) + Send>;
+#[cfg(fastcgi_server_verif)]
+static VERIF_WG_HOOK: std::sync::Mutex<Option<VerifWgHook>> = std::sync::Mutex::new(None);
+
+/// Installs (or removes) the scheduling-point callback of `WaitGroupFuture::poll`.
+#[cfg(fastcgi_server_verif)]
+pub fn verif_set_wg_hook(hook: Option<VerifWgHook>) {
+    *VERIF_WG_HOOK.lock().unwrap_or_else(std::sync::PoisonError::into_inner) = hook;
+}
+
+#[cfg(fastcgi_server_verif)]
+fn verif_wg_hook(point: u8) {
+    let taken = VERIF_WG_HOOK.lock().unwrap_or_else(std::sync::PoisonError::into_inner).take();
+    if let Some(mut hook) = taken {
+        hook(point);
+        let mut slot = VERIF_WG_HOOK.lock().unwrap_or_else(std::sync::PoisonError::into_inner);
+        if slot.is_none() {
+            *slot = Some(hook);
+        }
+    }
+}
 
 /// An efficient structure to await the completion of a group of tasks.
 #[derive(Default)]
